@@ -222,7 +222,13 @@ def run(ctx):
         if not fam.startswith('trace'):
             pts, vt = gen.variant(rng, pts, 0.2)
             fam += vt
-        one(ctx, kind, pts, rand_opts(rng, kind), fam)
+        opts = rand_opts(rng, kind)
+        if rng.random() < 0.05:
+            # raw byte counts as an int64 array: squares / products of coordinate differences exceed 2^63 in the input's own dtype
+            from .. import rdpfam
+            pts, fam = rdpfam.bytecount_curve(rng, rng.randrange(6, 30))
+            opts = dict(opts, int_dtype=rng.random() < 0.8)
+        one(ctx, kind, pts, opts, fam)
     for _ in range(5000 if quick else 60000):
         refinement_sweep(ctx, sweep_curve(rng), dict(fit=rng.choice(['pointfit', 'pointfit', 'bestfit']), mode=rng.choice(['original', 'original', 'adjusted']),
                                                       limit=rng.choice([4, 6, 8, 10, 10, 10, 12, 16])))
